@@ -1,7 +1,7 @@
 """C07 - JNI glue and generated Java agree on every class, member and native symbol."""
 import copy, json, random
 from concurrent.futures import ThreadPoolExecutor
-from .. import coqtool, gen_idl, jvm_judge
+from .. import coqtool, gen_idl, jvm_judge, kjinja
 from ..common import run_impl
 from ..emit import *
 from .c17 import FULL
@@ -199,6 +199,18 @@ def run(ctx):
                  'class_descriptor / jni_prefix / type_signature / typename of every declaration of generated programs under 3 identifier-style and '
                  'package configurations vs Marshal/Jni.v on the attributes of the referenced types; the same vm_compute run checks the '
                  'implementation values against the specification (method_descriptor, mangle, ctype_ok)')
+    # ---- K-jinja: the look-up and JNIEXPORT loops the render theorems are about, rendered by Jinja on the real objects vs the TIR interpreter
+    frs = [{'gen': 'jni', 'template': 'header/record.jinja2.hpp', 'attr': 'fields', 'index': 0, 'decl_class': 'Record'},
+           {'gen': 'jni', 'template': 'header/record.jinja2.hpp', 'attr': 'fields', 'index': 1, 'decl_class': 'Record'},
+           {'gen': 'jni', 'template': 'header/interface.jinja2.hpp', 'attr': 'methods', 'index': 1, 'decl_class': 'Interface'},
+           {'gen': 'jni', 'template': 'source/interface.jinja2.cpp', 'attr': 'methods', 'index': 1, 'decl_class': 'Interface',
+            'macros': ['cpp_error_handling']}]
+    jc = [{'files': c_['files'], 'root': c_['root'], 'options': c_['options'], 'fragments': frs} for c_ in mcases[-3:]]
+    mismj, flat = kjinja.run(ctx, 'c07', jc)
+    if flat is not None:
+        ctx.add_corr('K-jinja/jni-lookups', len(flat), len({f['decl'] for f in flat}), [{'fragment': m_['fragment'], 'decl': m_['decl'], 'impl_text': m_['text']} for m_ in (mismj or [])],
+                     [{'fragment': flat[0]['fragment'], 'text': flat[0]['text'][:300]}] if flat else [], {'renders': len(flat)},
+                     'constructor-signature, jniGetFieldID, jniGetMethodID and JNIEXPORT loops of the JNI templates (base macros expanded) on the systematic programs')
     # ---- judge: javac/javap vs scraped JNI sources
     ok2, res2 = run_impl('gen_run', {'cases': gcases}, timeout=3000)
     if not ok2:
